@@ -189,10 +189,19 @@ func (r *Reader) Info() (*Info, error) {
 	if r.rs == nil {
 		return nil, fmt.Errorf("cannot get info from non-seekable reader")
 	}
+	// reading the summary moves the underlying reader; put it back where it was, so that a later
+	// sequential read (Messages falling back to a scan) does not start in the summary section.
+	pos, err := r.rs.Seek(0, io.SeekCurrent)
+	if err != nil {
+		return nil, fmt.Errorf("failed to get current stream position: %w", err)
+	}
 	it := r.indexedMessageIterator(&ReadOptions{
 		UseIndex: true,
 	})
-	err := it.parseSummarySection()
+	err = it.parseSummarySection()
+	if _, seekErr := r.rs.Seek(pos, io.SeekStart); seekErr != nil && err == nil {
+		err = fmt.Errorf("failed to restore stream position: %w", seekErr)
+	}
 	if err != nil {
 		return nil, err
 	}
